@@ -67,7 +67,8 @@ TRUSTED = ['z3 nonlinear arithmetic and quantifier instantiation']
 
 
 def tasks(tier):
-    t = ['arith', 'stencil', 'cellsize', 'bounds', 'ncells', 'sound', 'update', 'context', 'query', 'complete', 'list', 'repoint', 'zrows', 'oracle']
+    t = ['arith', 'stencil', 'cellsize', 'bounds', 'ncells', 'sound', 'update', 'context', 'query', 'complete', 'list', 'repoint', 'zrows', 'sortseg', 'sortflag',
+            'oracle']
     return t + ['canary']
 
 
@@ -132,7 +133,9 @@ def task_arith(ctx, repo):
     obs = [Obligation('valid_cell_index.spec.%d' % i, o.pc,
                       S.to_z3(o.value) == spec, W)
            for i, o in enumerate(outs)]
-    ctx.prove('arith.get_valid_cell_index_spec', z3only(obs), use_nf=False)
+    ctx.prove('arith.get_valid_cell_index_spec', z3only(obs), use_nf=False,
+              replay=replay_oracle(['longz', 'uniform'], dims=(3,),
+                                   caches=[False]))
 
     # flattening is injective on cells inside the grid
     dx, dy, dz = z3.Ints('dx dy dz')
@@ -447,6 +450,7 @@ def scenarios(dim, which):
     S['far'] = lambda: [cloud(rng, 30, dim, 1000.0, 1001.0)]
     S['hvar'] = lambda: [cloud(rng, 40, dim, h=rng.uniform(0.02, 0.3, 40))]
     S['faces'] = lambda: [pa('a', *[(np.array(np.meshgrid(*[np.arange(4)*0.2]*3)).reshape(3, -1)[k] if k < dim else np.zeros(64)) for k in range(3)], h=0.1)]
+    S['longz'] = lambda: [pa('a', rng.uniform(0, 0.5, 80), (rng.uniform(0, 0.5, 80) if dim > 1 else None), (rng.uniform(0, 2.0, 80) if dim > 2 else None), 0.06)]
     S['clustered'] = lambda: [pa('a', np.r_[rng.normal(0.2, 0.01, 30), rng.uniform(0, 3, 10)], (np.r_[rng.normal(0.2, 0.01, 30), rng.uniform(0, 3, 10)] if dim > 1 else None), None, 0.05)]
     return [(k, S[k]) for k in which if k in S]
 
@@ -1821,7 +1825,7 @@ def _free_ints(e):
 QUICK_SCEN = ['single', 'coincident', 'two', 'sparse_src', 'empty', 'hvar',
               'faces']
 ALL_SCEN = ['single', 'coincident', 'line', 'uniform', 'two', 'sparse_src',
-            'empty', 'far', 'hvar', 'faces', 'clustered']
+            'empty', 'far', 'hvar', 'faces', 'clustered', 'longz']
 
 
 def task_oracle(ctx, repo):
@@ -1855,3 +1859,220 @@ def task_oracle(ctx, repo):
                           'definition')
     for b in bad:
         ctx.bounded_check('oracle.' + b['case'], bound, 1, False, b)
+
+
+# ------------------------------------------------------------------ sortseg
+def task_sortseg(ctx, repo):
+    """sort_gids: what is handed to _sort_neighbors is exactly the segment of
+    nbrs appended by THIS call -- it starts where nbrs ended on entry (or at
+    0 when the function resets nbrs first) and its length is the number of
+    entries appended since.  (A cache appends many particles' lists to one
+    long buffer, so sorting from the start of the buffer shuffles earlier
+    particles' lists.)"""
+    from pyvc.abstract import AbstractExecutor
+    from pyvc.symexec import _FuncRef
+    pxd = repo.cython_module(PXD)
+    for rel, cls, fname, classes in SOUND_SITES:
+        m = repo.cython_module(rel)
+        if fname == '_get_neighbors':
+            cls_, fname_ = 'OctreeNNPS', 'find_nearest_neighbors'
+        else:
+            cls_, fname_ = cls, fname
+        name = 'sortseg.%s.%s' % (cls_, fname_)
+        if cls_ not in m.classes or fname_ not in m.methods(cls_):
+            ctx.prove(name, [Obligation(name + '.present', [],
+                                        z3.BoolVal(False), m.path)])
+            continue
+        fn = m.methods(cls_)[fname_]
+        W = m.path
+        n = [z3.Int('n0'), z3.Int('n1')]
+        ws = wrappers(n)
+        for w in ws:
+            w.attrs['gid'] = C17.carr('gid')
+        events = []
+        calls = []
+
+        class Nb(NbrsModel):
+            def vc_getattr(self, a, ex, st, node):
+                if a == 'length':
+                    self.reads += 1
+                    napp = len([e for e in self.events if e[0] in (
+                        'append', 'reset', 'set_length')])
+                    v = z3.Int('nbrs_length_read_%d' % self.reads)
+                    self.events.append(('read', v, napp))
+                    return v
+                if a in ('reset', 'c_reset'):
+                    return Native(lambda e, s_, ar, kw, nd:
+                                  self.events.append(('reset',)))
+                return NbrsModel.vc_getattr(self, a, ex, st, node)
+
+            def vc_setattr(self, a, v, ex, st, node):
+                self.events.append(('set_' + a, v))
+        nbrs = Nb(events)
+        obj = SymObject(cls_, dict(
+            src=ws[1], dst=ws[0], pa_wrappers=ws,
+            radius_scale=z3.Real('rs'), radius_scale2=z3.Real('rs2'),
+            sort_gids=True, src_index=1, dst_index=0,
+            xmin=C17.carr('xmin', length=z3.IntVal(3), elem='real'),
+            cell_size=z3.Real('cell_size'), dim=z3.Int('dim'),
+            n_cells=z3.Int('n_cells'), head=C17.carr('head'),
+            next=C17.carr('next'),
+            cell_shifts=C17.carr('cell_shifts', length=z3.IntVal(3)),
+            ncells_per_dim=C17.carr('ncells_per_dim', length=z3.IntVal(3)),
+        ), 'self')
+        obj.module = m
+
+        def sort_c(e, s_, a, k, nd):
+            calls.append((a, list(events)))
+        # NNPS._sort_neighbors (nnps_base.pyx, std::sort: assumed to permute
+        # the given segment) is modelled on the object
+        obj.attrs['_sort_neighbors'] = Native(sort_c)
+        ex = AbstractExecutor(repo, m, qualname='%s.%s' % (cls_, fname_),
+                              int_names=index_names(fn), inline=set())
+        ex.spec_env['UINT_MAX'] = UINT_MAX
+        ex.spec_env['norm2'] = _FuncRef(pxd, pxd.functions['norm2'])
+        ex.spec_env['addr_of'] = Native(lambda e, s_, a, k, nd: ('addr',
+                                                                 a[0]))
+        ex.spec_env['cPoint_new'] = Native(lambda e, s_, a, k, nd: SymObject(
+            None, dict(x=a[0], y=a[1], z=a[2]), 'pnt'))
+        args = dict(self=obj, nbrs=nbrs, d_idx=z3.Int('d_idx'))
+        try:
+            if fname_ == 'get_nearest_particles_no_cache':
+                for pre_ in (False, True):
+                    args.update(src_index=1, dst_index=0, prealloc=pre_)
+                    del events[:]
+                    nbrs.reads = 0
+                    ex.exec_function(fn, args, State(pc=[]))
+            else:
+                ex.exec_function(fn, args, State(pc=[]))
+        except VCError as e:
+            ctx.outside(name, str(e))
+            continue
+        ctx.function(m, fn, '%s.%s (sort_gids on)' % (cls_, fname_),
+                     set('abstracted: ' + a_ for a_ in ex.abstracted[:20]))
+        ok = len(calls) >= 1
+        why = []
+        for cargs, evs in calls:
+            start, count = cargs[0], cargs[1]
+            reads = [e for e in evs if e[0] == 'read']
+            resets = [i for i, e in enumerate(evs) if e[0] in ('reset',) or
+                      (e[0] == 'set_length' and not S.is_sym(e[1]) and
+                       e[1] == 0)]
+            appended_before_reset = any(e[0] == 'append' for e in
+                                        evs[:resets[0]]) if resets else None
+            if resets and not appended_before_reset:
+                # the function empties nbrs first: segment = everything,
+                # i.e. (nbrs.data, nbrs.length read after the last append)
+                good = isinstance(start, NbrsData) and reads and \
+                    S.is_sym(count) and count.eq(reads[-1][1])
+            else:
+                first = reads[0][1] if reads else None
+                good = isinstance(start, tuple) and start[0] == 'addr' and \
+                    isinstance(start[1], tuple) and \
+                    start[1][0] == 'nbrs.data' and first is not None and \
+                    S.is_sym(start[1][1]) and start[1][1].eq(first) and \
+                    reads[0][2] == 0 and S.is_sym(count) and \
+                    z3.simplify(count - (reads[-1][1] - first)).eq(
+                        z3.IntVal(0))
+            if not good:
+                ok = False
+                why.append('start=%s count=%s' % (str(start)[:60],
+                                                  str(count)[:60]))
+        ctx.prove(name, [Obligation(name + '.segment', [], z3.BoolVal(
+            bool(ok)), W, extra=dict(calls=len(calls), why=why[:3]))],
+            replay=replay_sorted(classes))
+
+
+def task_sortflag(ctx, repo):
+    """object invariant behind sort_gids: the constructor of every class (or
+    a base constructor it calls) stores the flag it is given"""
+    nb = repo.cython_module(NB)
+
+    def stores(fn):
+        for nd in ast.walk(fn):
+            if isinstance(nd, ast.Assign) and any(
+                    ast.unparse(t).replace(' ', '') == 'self.sort_gids'
+                    for t in nd.targets) and \
+                    ast.unparse(nd.value) == 'sort_gids':
+                return True
+        return False
+    base_ok = any(stores(nb.methods(c)['__init__']) for c in ('NNPS',
+                                                              'NNPSBase'))
+    obs = []
+    for rel, cls in CONTEXT_CLASSES + [
+            ('pysph/base/box_sort_nnps.pyx', 'BoxSortNNPS'),
+            ('pysph/base/box_sort_nnps.pyx', 'DictBoxSortNNPS')]:
+        m, meths = _class_methods(repo, rel, cls)
+        ok = base_ok
+        # own constructor, or the one inherited from LinkedListNNPS
+        cands = [meths.get('__init__')]
+        if cls == 'BoxSortNNPS':
+            ll = repo.cython_module(LL)
+            cands = [ll.methods('LinkedListNNPS')['__init__']]
+        todo = [c for c in cands if c is not None]
+        # constructors of in-file bases are reached through Base.__init__
+        for c in m.classes:
+            if c != cls and c in [b.id for b in m.classes[cls].bases
+                                  if isinstance(b, ast.Name)] and \
+                    '__init__' in m.methods(c):
+                todo.append(m.methods(c)['__init__'])
+        ok = ok or any(stores(f) for f in todo)
+        obs.append(Obligation('sortflag.%s' % cls, [], z3.BoolVal(bool(ok)),
+                              m.path))
+    ctx.prove('sortseg.every_constructor_records_sort_gids', obs,
+              replay=replay_sorted(ALL_ALGS))
+
+
+SORTED = r'''
+import json, sys
+d = json.load(sys.stdin)
+if d.get('built'): sys.path.insert(0, d['built'])
+import numpy as np
+from pysph.base.utils import get_particle_array
+from pysph.base import nnps
+from cyarray.api import UIntArray
+rng = np.random.RandomState(1)
+n = 60
+bad = None
+for cls in d['classes']:
+    for cache in (False, True):
+        pa = get_particle_array(name='a', x=rng.rand(n), y=rng.rand(n), h=0.15)
+        pa.gid[:] = rng.permutation(n)
+        nn = getattr(nnps, cls)(dim=2, particles=[pa], sort_gids=True, cache=cache)
+        nb = UIntArray()
+        for i in range(n):
+            nn.get_nearest_particles(0, 0, i, nb)
+            ids = nb.get_npy_array()
+            g = pa.gid[ids].astype(np.int64)
+            d2 = (pa.x - pa.x[i])**2 + (pa.y - pa.y[i])**2
+            want = set(np.where(d2 < (2.0*0.15)**2)[0].tolist())
+            if not np.all(np.diff(g) >= 0):
+                bad = dict(algorithm=cls, cache=cache, particle=i, gids_of_returned_neighbours=g.tolist()[:12]); break
+            if set(ids.tolist()) != want:
+                bad = dict(algorithm=cls, cache=cache, particle=i, problem='with sort_gids the returned set is not the neighbour set',
+                           missing=sorted(want - set(ids.tolist()))[:6], extra=sorted(set(ids.tolist()) - want)[:6]); break
+        if bad: break
+    if bad: break
+print(json.dumps(dict(bad=bad)))
+'''
+
+
+def replay_sorted(classes):
+    def rp(model, ob):
+        if os.environ.get('PYVC_NO_BUILD_REPLAY'):
+            return dict(reproduced=False, note='build replay disabled')
+        try:
+            tree, msg = native.shared_build()
+            if tree is None:
+                return dict(reproduced=False, note=msg)
+            r = native.run_venv(SORTED, dict(built=tree, classes=[
+                c for c in classes if c not in ('ExtendedZOrderNNPS',)]),
+                timeout=900, cwd='/tmp')
+        except Exception as e:
+            return dict(reproduced=False, note=str(e)[-300:])
+        if r['bad']:
+            return dict(reproduced=True, how='extensions built from the '
+                        'working tree; sort_gids=True must return '
+                        'neighbours in increasing gid order', **r['bad'])
+        return dict(reproduced=False)
+    return rp
